@@ -273,7 +273,7 @@ func checkC03(c *Ctx) {
 				succ := h.Blocks[e.from].Succs[e.slot]
 				hit := false
 				if len(succ.Instrs) > 0 {
-					hit, _ = reach(h, succ.Instrs[0], func(in ssa.Instruction) bool {
+					hit, _ = reachAt(h, succ, func(in ssa.Instruction) bool {
 						if call, ok := in.(*ssa.Call); ok {
 							if b, ok := call.Call.Value.(*ssa.Builtin); ok && b.Name() == "delete" {
 								return true
@@ -291,7 +291,7 @@ func checkC03(c *Ctx) {
 				}
 				// reaching the next Read (not WrapConnection) first is also fine: block both
 				if hit {
-					hit, _ = reach(h, succ.Instrs[0], func(in ssa.Instruction) bool {
+					hit, _ = reachAt(h, succ, func(in ssa.Instruction) bool {
 						if call, ok := in.(*ssa.Call); ok {
 							if b, ok := call.Call.Value.(*ssa.Builtin); ok && b.Name() == "delete" {
 								return true
